@@ -13,10 +13,8 @@
 (*   calls unequal), extent bound (bounded spaces, in-bounds states): always;   *)
 (*   symmetry: iff hasSymmetricDistance(); triangle: iff isMetricSpace();       *)
 (*   weighted sum: spaces whose distance is CompoundStateSpace::distance;       *)
-(*   interpolation endpoints, in-bounds, aliasing: always (for the car-like     *)
-(*   spaces, whose curves leave the R^2 box by construction, the harness judges *)
-(*   the heading only and says so in the Space event); re-parameterisation and  *)
-(*   proportionality: the spaces whose interpolation follows their own geodesic *)
+(*   interpolation endpoints, in-bounds, aliasing: always; re-parameterisation  *)
+(*   and proportionality: the spaces whose interpolation follows their geodesic *)
 (*   (R^n, SO(2), SO(3), SE(2), SE(3), time, torus, weighted compounds of them) *)
 (*   and that are not discrete / hybrid.  Positivity is required of pairs the   *)
 (*   space calls unequal and that are further apart than the space's own        *)
